@@ -20,7 +20,7 @@ Gen == [accts |-> Accts,
         bcn |-> [feeReg |-> 4, feeRec |-> 1, feePur |-> 1, denom |-> "nund", def |-> 2, max |-> 3, startId |-> 1],
         str |-> [feeNum |-> 1, feeDen |-> 10]]
 
-Init == st = StateOf(Gen) /\ phase = "idle" /\ hist = <<[a |-> "InitChain", g |-> Gen]>> /\ nTx = 0 /\ nFail = 0
+Init == st = StateOf(Gen) /\ phase = "idle" /\ hist = <<[a |-> "InitChain", g |-> Gen]>> /\ nTx = 0 /\ nFail = 0 /\ GoalRegsInit
 
 Pairs == { <<r, s>> \in AcctSet \X AcctSet : r # s /\ r \in {"A2", "A3"} /\ s \in {"A1", "A2"} }
 SCreate(r, s, dep, den, rate) == [t |-> "SCreate", sender |-> s, receiver |-> r, dep |-> dep, denom |-> den, rate |-> rate]
@@ -35,14 +35,18 @@ TxAlphabet ==
   \cup { Tx(<<[t |-> "Send", from |-> "A1", to |-> "stream", amt |-> 5, denom |-> "nund"]>>) }
   \cup { Tx(<<SCreate("stream", "A1", 60, "nund", 1)>>), Tx(<<SCreate("A1", "A1", 60, "nund", 1)>>), Tx(<<SCreate("A2", "A1", 59, "nund", 1)>>) }
   \cup { Tx(<<[t |-> "SClaim", sender |-> "A1", receiver |-> "A2"], [t |-> "Send", from |-> "A2", to |-> "A3", amt |-> 1, denom |-> "nund"]>>) }
+  \* a stream created and topped up inside a transaction that is rolled back (the pair stays free)
+  \cup { Tx(<<SCreate("A2", "A1", 60, "nund", 1), [t |-> "STopUp", sender |-> "A1", receiver |-> "A2", dep |-> 60, denom |-> "nund"], SCreate("A2", "A1", 60, "nund", 1)>>) }
   \cup { GovTxFor(st, "str", Fees[i]) : i \in DOMAIN Fees }
 
+\* the rolled-back creation scripts (three messages) do not use up the ration of failing transactions
+Scripted(ev) == Len(ev.msgs) >= 3
 Do(ev, ph) ==
   LET r == Step(st, ev) IN
   /\ st' = r.st /\ hist' = Append(hist, ev) /\ phase' = ph
   /\ IF ev.a = "DeliverTx"
-     THEN /\ nTx' = nTx + 1 /\ nFail' = IF r.ok THEN nFail ELSE nFail + 1
-          /\ (r.ok \/ nFail < MaxFail)
+     THEN /\ nTx' = nTx + 1 /\ nFail' = IF r.ok \/ Scripted(ev) THEN nFail ELSE nFail + 1
+          /\ (r.ok \/ Scripted(ev) \/ nFail < MaxFail)
      ELSE UNCHANGED <<nTx, nFail>>
 
 Next ==
@@ -69,6 +73,8 @@ DTsFull == {0, 500, 1000, 30000, 60000, 200000}
 Inv == C10State(st) /\ C11State(st) /\ Conserved(st) /\ NotStranded(st) /\ NotHalted(st) /\ C02StateModel(st) /\ StoredParamsValid(st) /\ C15State(st)
 StepProps == [][ hist' # hist =>
                  LET ev == hist'[Len(hist')] IN C10Step(st, st', ev) /\ C02Step(st, st', ev) /\ C04Step(st, st', ev) ]_vars
+\* coverage goals: print the behaviours that exercise the rare situations of Goals.tla (every explored transition)
+GoalEmit == [][ GoalStep(st, hist, st', hist') ]_vars
 Emit == phase = "done" => PrintT(<<"TRACE", ToJson(hist)>>)
 
 SweepPrefix == << [a |-> "BeginBlock", dt |-> 1000],
